@@ -45,6 +45,7 @@ def run(ctx):
     C14.guards(ctx, facts)
     C14.cursors(ctx, facts)
     C14.waker_store(ctx, facts)
+    C14.waker_ring(ctx, facts)
     ctx.assume("transport implementations deliver streams to the route they are given; interleavings beyond the waker discipline are not decided here")
 
 
